@@ -12,6 +12,7 @@ import (
 	"os/exec"
 	"strconv"
 	"strings"
+	"sync"
 	"time"
 )
 
@@ -38,6 +39,7 @@ type Solver struct {
 	Time    time.Duration
 	log     io.Writer // optional SMT-LIB transcript
 	kind    string
+	broken  bool
 }
 
 var solverPrelude = unicodePrelude()
@@ -124,6 +126,7 @@ func (s *Solver) sync() []string {
 			lines = append(lines, line)
 		}
 		if err != nil {
+			s.broken = true
 			lines = append(lines, "(error \"solver died: "+err.Error()+"\")")
 			return lines
 		}
@@ -272,4 +275,45 @@ func parseValues(txt string, out map[string]uint64) {
 			i += 3
 		}
 	}
+}
+
+// Solver processes are reused across the harness runs of one check (start-up of 16 processes
+// costs about a second per run otherwise). Every path runs inside its own push/pop scope, so a
+// released process carries no assertions.
+var (
+	poolMu sync.Mutex
+	pool   = map[string][]*Solver{}
+)
+
+func acquireSolver(kind string) (*Solver, error) {
+	poolMu.Lock()
+	if l := pool[kind]; len(l) > 0 {
+		s := l[len(l)-1]
+		pool[kind] = l[:len(l)-1]
+		poolMu.Unlock()
+		return s, nil
+	}
+	poolMu.Unlock()
+	return NewSolver(kind, nil)
+}
+
+func releaseSolver(s *Solver) {
+	if s.broken {
+		s.Close()
+		return
+	}
+	poolMu.Lock()
+	pool[s.kind] = append(pool[s.kind], s)
+	poolMu.Unlock()
+}
+
+func closeSolverPool() {
+	poolMu.Lock()
+	defer poolMu.Unlock()
+	for _, l := range pool {
+		for _, s := range l {
+			s.Close()
+		}
+	}
+	pool = map[string][]*Solver{}
 }
